@@ -38,6 +38,8 @@ def run(eng, rep) -> None:
     )
     rep.rule("R16.1", "every store read is dominated by a raising bounds test on the same index (>= len), or goes through such a method")
     rep.rule("R16.4", "decoded element counts are used as the unsigned word that was read (no signed reinterpretation: a negative count reads nothing and raises nothing)")
+    rep.rule("R16.5", "the overrun error raised by the buffer reaches decode()'s caller: no handler on the way catches ValueError")
+    rep.rule("R16.6", "units: the cursor and word widths are bits, len(store) and byte counts are bytes; comparisons and sums do not mix them (>>3, //8, *8 convert)")
     rep.rule("R16.2", "decoded counts bound only loops that read on every iteration; no allocation sized by a decoded value")
     rep.rule("R16.3", "decode() creates its buffer per call, fills it from the input only, and reads from bit 0")
     rep.assume("fixed-size array loops (range(type.size)) assume size >= 1 ([[u8, 0]] is the pathological schema)")
@@ -141,6 +143,26 @@ def run(eng, rep) -> None:
                     rep.violation("R16.2", f.file, f.qual, norm(n, 60), "materialises range(<decoded length>)")
     rep.floor("R16.2", "loops whose trip count is decoded from the input", n_loops, 1)
 
+    # ---- R16.5: the overrun error reaches decode() ------------------------------------------
+    from ..excflow import ExcFlow
+    from .C14 import swallow_sites
+    xf = ExcFlow(eng, [DEC])
+    n_r = 0
+    for name, m in cc.ci.methods.items():
+        if m.qual not in xf.reach:
+            continue
+        for n in walk_local(m.node):
+            if isinstance(n, ast.Raise):
+                n_r += 1
+                sw = swallow_sites(eng, xf, m, n, ("ext", ValueError), DEC)
+                rep.check(not sw, "R16.5", m.file, m.qual, norm(n, 50), "propagates to decode()'s caller",
+                          "the overrun error is caught on the way to decode() (%s): a truncated message is answered with a partial value instead of an error" % (sw[0] if sw else ""))
+    # store reads that raise IndexError by themselves (no explicit raise): same question for handlers of IndexError/LookupError
+    if n_r == 0:
+        rep.undecided("R16.5", cc.ci.file, cc.ci.qual, "overrun raise sites", "no explicit raise in the buffer class")
+    # ---- R16.6: bit quantities and byte quantities are not mixed ----------------------------
+    units_rule(eng, rep, cc, pr)
+
     # ---- R16.4 ---------------------------------------------------------------------
     from .codec_py import parser_type_classes, grammar_of
     from ..effects import Unsupported, WordV
@@ -219,6 +241,82 @@ def method_advances(eng, cc, pr, name: str, depth: int = 0) -> bool:
     if cc.cursor_writes(m):
         return True
     return any(method_advances(eng, cc, pr, c.func.attr, depth + 1) for c in cc.self_calls(m))
+
+
+def units_rule(eng, rep, cc, pr) -> None:
+    """A small units-of-measure check over the buffer class: 'bit' for the cursor, bit addresses and word widths,
+    'byte' for len(store), byte indices and byte counts; `>> 3` / `// 8` turn bits into bytes, `* 8` / `<< 3` bytes into bits;
+    `& 7` / `% 8` of bits is bits.  A comparison, sum or cursor update that mixes the two is reported."""
+    from ..dataflow import deep_resolve
+    S, C = cc.S, cc.C
+
+    for name, m in cc.ci.methods.items():
+        ps = [p.arg for p in m.params][1:]
+        punit = {}
+        if name in pr.word_prims:
+            kind, idx = pr.word_prims[name]
+            if idx < len(ps):
+                punit[ps[idx]] = "bit"
+        if name in getattr(pr, "byte_prims", {}):
+            kind, idx = pr.byte_prims[name]
+            if idx < len(ps) and kind == "read":
+                punit[ps[idx]] = "byte"
+        if m in (pr.bit_get, pr.bit_set) and ps:
+            punit[ps[-1] if m is pr.bit_set else ps[0]] = "bit"
+
+        def unit(e):
+            if isinstance(e, ast.Constant):
+                return None
+            t = norm(e)
+            if t == C:
+                return "bit"
+            if t == "len(%s)" % S:
+                return "byte"
+            if isinstance(e, ast.Name):
+                return punit.get(e.id)
+            if isinstance(e, ast.BinOp):
+                l, r = unit(e.left), unit(e.right)
+                rc = e.right.value if isinstance(e.right, ast.Constant) and isinstance(e.right.value, int) else None
+                lc = e.left.value if isinstance(e.left, ast.Constant) and isinstance(e.left.value, int) else None
+                if isinstance(e.op, (ast.RShift, ast.FloorDiv)) and ((isinstance(e.op, ast.RShift) and rc == 3) or (isinstance(e.op, ast.FloorDiv) and rc == 8)):
+                    return "byte" if l == "bit" else (None if l is None else "byte/8?")
+                if (isinstance(e.op, ast.LShift) and rc == 3) or (isinstance(e.op, ast.Mult) and (rc == 8 or lc == 8)):
+                    u = l if rc is not None else r
+                    return "bit" if u == "byte" else (None if u is None else "bit*8?")
+                if isinstance(e.op, (ast.BitAnd, ast.Mod)) and ((isinstance(e.op, ast.BitAnd) and rc == 7) or (isinstance(e.op, ast.Mod) and rc == 8)):
+                    return "bit" if l == "bit" else None
+                if isinstance(e.op, (ast.Add, ast.Sub)):
+                    if l and r and l != r and "?" not in l + r:
+                        mixes.append((e, l, r))
+                        return None
+                    return l or r
+                return None
+            return None
+
+        mixes = []
+        for n in walk_local(m.node):
+            if isinstance(n, ast.Compare) and len(n.ops) == 1 and isinstance(n.ops[0], (ast.Lt, ast.LtE, ast.Gt, ast.GtE, ast.Eq, ast.NotEq)):
+                l, r = unit(deep_resolve(m.node, n.left)), unit(deep_resolve(m.node, n.comparators[0]))
+                if l and r and l != r and "?" not in l + r:
+                    mixes.append((n, l, r))
+            elif isinstance(n, ast.AugAssign) and norm(n.target) == C and isinstance(n.op, (ast.Add, ast.Sub)):
+                r = unit(deep_resolve(m.node, n.value))
+                if r == "byte":
+                    mixes.append((n, "bit", r))
+            elif isinstance(n, ast.Assign) and any(norm(t) == C for t in n.targets):
+                r = unit(deep_resolve(m.node, n.value))
+                if r == "byte":
+                    mixes.append((n, "bit", r))
+            elif isinstance(n, ast.BinOp):
+                unit(deep_resolve(m.node, n))
+        seen = set()
+        for n, l, r in mixes:
+            k = norm(n, 80)
+            if k in seen:
+                continue
+            seen.add(k)
+            rep.violation("R16.6", m.file, m.qual, k, "a quantity in %ss is combined with a quantity in %ss: the bound is off by a factor of eight (e.g. a count of bytes compared with the number of bits left: a short input passes the test)" % (l, r))
+    rep.ok("R16.6", cc.ci.file, cc.ci.qual, "%d methods of the buffer class" % len(cc.ci.methods), "bit and byte quantities are not mixed in the recognised expressions") if not any(o["rule"] == "R16.6" and o["verdict"] == "violation" for o in rep.obls) else None
 
 
 def _byte_form(e: ast.AST, C: str):
